@@ -67,12 +67,15 @@ def spec_traj(draw, tier):
         else:
             if draw(st.booleans()):
                 v["flags"]["outputAppliedForce"] = "on"
+        if kind == "z" and i > 0 and draw(st.integers(0, 3)) == 0:
+            # computed every 2nd / 3rd step only: its columns stay in every line (last computed value)
+            v["tsf"] = draw(st.sampled_from([2, 3]))
         vs.append(v)
     nb = draw(st.integers(0, 2))
     bs = []
     for j in range(nb):
         kind = draw(st.sampled_from(["harmonic", "harmonic_moving", "harmonic_k", "walls", "meta"]))
-        scal = [i for i, v in enumerate(vs) if v["kind"] != "vec"]
+        scal = [i for i, v in enumerate(vs) if v["kind"] != "vec" and not v.get("tsf")]
         if not scal:
             break
         bs.append({"name": "b%d" % j, "kind": kind, "var": draw(st.sampled_from(scal)), "energy": draw(st.booleans()),
@@ -88,6 +91,8 @@ def spec_traj(draw, tier):
 
 def var_cfg(v):
     ex = dict(v["flags"])
+    if v.get("tsf"):
+        ex["timeStepFactor"] = str(v["tsf"])
     if v["kind"] == "ext":
         ex.update({"extendedLagrangian": "on", "extendedFluctuation": "0.3", "extendedTimeConstant": "40", "extendedLangevinDamping": "0",
                    "extendedTemp": "300"})
@@ -208,7 +213,8 @@ def check_traj(spec, ctx):
                                case_text=case)
     cls = ("f%d" % spec["freq"], "late" if late is not None else "", "newrun" if spec["newrun"] is not None else "", ",".join(sorted(kinds)))
     return Outcome(True, nontrivial=len(data) >= 3 and len(kinds) >= 2, cls=cls,
-                   strata=["kind:" + k for k in kinds] + (["late_object"] if late is not None else []) + (["newrun"] if spec["newrun"] is not None else []),
+                   strata=["kind:" + k for k in kinds] + (["late_object"] if late is not None else []) + (["newrun"] if spec["newrun"] is not None else []) +
+                   (["sleeping_variable"] if any(v.get("tsf") for v in vs) and any(s["it"] % v["tsf"] for v in vs if v.get("tsf") for s in expected) else []),
                    case_text=case)
 
 
@@ -342,10 +348,12 @@ def check_acf(spec, ctx):
         return Outcome(True, strata=["empty"])
     if len(lines) != Lc + 1:
         return Outcome(False, msg="%d correlation-function lines, expected %d" % (len(lines), Lc + 1), sig="acf_lines", case_text=case)
+    if spec["normalize"] and acc[0] == 0:
+        return Outcome(discard=True)       # the normalised function of an identically zero series is not defined
     for k, ln in enumerate(lines):
         exp = acc[k] / n
         if spec["normalize"]:
-            exp = acc[k] / acc[0] if acc[0] != 0 else float("nan")
+            exp = acc[k] / acc[0]
         got = float(ln[1])
         if int(ln[0]) != k * s_ or not (abs(got - exp) <= 1e-11 * max(1.0, abs(exp))):
             return Outcome(False, msg="C(%s): file has %r; mean lagged product over the %d available origins %sis %r" %
@@ -365,4 +373,4 @@ PARTS = {
     "corrfunc": {"strategy": spec_acf, "check": check_acf, "examples": {"quick": 4000, "thorough": 10000}, "sample": view},
 }
 
-REQUIRED_STRATA = {"all": ["corrfunc:acf:vec", "corrfunc:acf:p2vec", "corrfunc:acf:scalar"]}
+REQUIRED_STRATA = {"all": ["corrfunc:acf:vec", "corrfunc:acf:p2vec", "corrfunc:acf:scalar", "traj:sleeping_variable"]}
